@@ -310,6 +310,7 @@ func runProperty(pr *Property, env *Env, tier string, seed int64, lean leanResul
 	var harnessErrs []string
 	var firstFail, firstDis *caseOutcome
 	attributed := map[string]int{}
+	brokenObligation := ""
 	nFail, nDis := 0, 0
 	for i := range outcomes {
 		o := &outcomes[i]
@@ -325,6 +326,11 @@ func runProperty(pr *Property, env *Env, tier string, seed int64, lean leanResul
 		for _, f := range o.failures {
 			if _, isListed := listed[f.Finding]; f.Finding != "" && isListed {
 				attributed[f.Finding]++
+			} else if strings.HasPrefix(f.What, "obligation:") {
+				// a static proof obligation that no longer holds: not a failing input by itself
+				if brokenObligation == "" {
+					brokenObligation = f.What + " " + f.Detail
+				}
 			} else {
 				real++
 			}
@@ -354,7 +360,7 @@ func runProperty(pr *Property, env *Env, tier string, seed int64, lean leanResul
 		cj := firstFail.c.toJSON()
 		var fl []Failure
 		for _, f := range firstFail.failures {
-			if _, isListed := listed[f.Finding]; f.Finding == "" || !isListed {
+			if _, isListed := listed[f.Finding]; (f.Finding == "" || !isListed) && !strings.HasPrefix(f.What, "obligation:") {
 				fl = append(fl, f)
 			}
 		}
@@ -378,6 +384,14 @@ func runProperty(pr *Property, env *Env, tier string, seed int64, lean leanResul
 		path := writeReplay(pr.ID, rf, "corr-"+firstDis.c.hash())
 		violationLines = append(violationLines, fmt.Sprintf("VIOLATION property=%s replay=%s no-failing-input-found", pr.ID, path))
 		violations = nDis
+		exit = 1
+	} else if brokenObligation != "" {
+		rf := replayFile{Kind: "no-failing-input-found", Seed: seed, Tier: tier,
+			What:   "a proof obligation tied to the source no longer holds; no failing input was found on the implementation",
+			Broken: brokenObligation}
+		path := writeReplay(pr.ID, rf, "static-obligation")
+		violationLines = append(violationLines, fmt.Sprintf("VIOLATION property=%s replay=%s no-failing-input-found", pr.ID, path))
+		violations = 1
 		exit = 1
 	} else if !lean.ok && !replayMode {
 		rf := replayFile{Kind: "no-failing-input-found", Seed: seed, Tier: tier,
